@@ -191,6 +191,8 @@ def rule_eof_before_use(prog, fixture=False):
                                           "some path consumes input and comes back here without clearing the flag: a " \
                                           "file cut short there is accepted as complete" % (fn.loc(ret), just[2])
                             continue
+                        if not just and not _consumed_while_flag_set(prog, fn, None, ret, set(vars_)):
+                            continue        # no byte has been consumed on any path to this return: a clean end
                         if not just:
                             problem = "end of input leads to a success return (%s) without a clean-end justification " \
                                       "(nothing consumed yet / end marker already recognised)" % fn.loc(ret)
@@ -253,7 +255,7 @@ def _consumed_while_flag_set(prog, fn, did, ret, getc_vars):
             return {e if e == "C" else (True, e[0]) for e in st}
         if c in INPUTS or (x.get("k") == "CallExpr" and x.get("fn") in consuming):
             return {e if e == "C" else (True, True) for e in st}
-        if x.get("k") in ("BinaryOperator", "CompoundAssignOperator") and x.get("op") in flow.ASSIGN_OPS and \
+        if did is not None and x.get("k") in ("BinaryOperator", "CompoundAssignOperator") and x.get("op") in flow.ASSIGN_OPS and \
                 strip_all(x["c"][0]).get("d") == did:
             return {"C"}
         return st
@@ -779,22 +781,38 @@ def _extension_handlers(prog):
     return out
 
 
-def _len_positive_edge(g, ln, edge):
+def _len_copies(f, ln):
+    """Locals that are never-reassigned copies of *len taken at their declaration."""
+    out = set()
+    for v in f.walk():
+        if v.get("k") == "VarDecl" and v.get("c"):
+            i = strip_all(v["c"][0])
+            if i is not None and i.get("k") == "UnaryOperator" and i.get("op") == "*" and (strip_all(i["c"][0]) or {}).get("d") == ln["d"] \
+                    and not any(d_ == v["d"] for x in f.walk() for d_, _ in flow.written_decls(x)):
+                out.add(v["d"])
+    return out
+
+
+def _len_positive_edge(g, ln, edge, copies=()):
+    def is_len(a):
+        if a is None:
+            return False
+        if a.get("k") == "UnaryOperator" and a.get("op") == "*" and (strip_all(a["c"][0]) or {}).get("d") == ln["d"]:
+            return True
+        return a.get("k") == "DeclRefExpr" and a.get("d") in copies
     for k in g.edge_facts.get(edge, ()):  # normalised facts established by taking this edge
         f = g.rep.get(k)
         if f is None:
             continue
         if f[0] == "T" and f[2] is True:
             a = strip_all(f[1])
-            if a is not None and a.get("k") == "UnaryOperator" and a.get("op") == "*" and \
-                    (strip_all(a["c"][0]) or {}).get("d") == ln["d"]:
+            if is_len(a):
                 return True
         if f[0] == "C":
             for l, rel, r in ((f[1], f[2], f[3]), (f[3], flow.SWAP[f[2]], f[1])):
                 a = strip_all(l)
                 c = folded(r)
-                if a is not None and a.get("k") == "UnaryOperator" and a.get("op") == "*" and \
-                        (strip_all(a["c"][0]) or {}).get("d") == ln["d"] and c is not None:
+                if is_len(a) and c is not None:
                     if (rel == ">" and c >= 0) or (rel == ">=" and c >= 1) or (rel == "!=" and c == 0):
                         return True
     return False
@@ -809,6 +827,7 @@ def rule_extension_needs_byte(prog, fixture=False):
     for f, cur, ln in hs:
         g = Guards(f)
         cfg = f.cfg
+        copies = _len_copies(f, ln)
         # success returns
         targets = {}
         for n in f.walk():
@@ -831,7 +850,7 @@ def rule_extension_needs_byte(prog, fixture=False):
             for s_ in cfg.succ[b]:
                 if s_ < 0 or s_ in seen or s_ not in cfg.blocks:
                     continue
-                if _len_positive_edge(g, ln, (b, s_)):
+                if _len_positive_edge(g, ln, (b, s_), copies):
                     continue
                 seen.add(s_)
                 parent[s_] = b
